@@ -181,6 +181,16 @@ class BoundMethod:
         return f"<bound {self.name} of {self.recv!r}>"
 
 
+class PartialV:
+    """functools.partial / operator.itemgetter-like callables."""
+
+    def __init__(self, kind, f, args=(), kwargs=None):
+        self.kind, self.f, self.args, self.kwargs = kind, f, list(args), dict(kwargs or {})
+
+    def __repr__(self):
+        return f"<{self.kind} {self.f!r}>"
+
+
 class Builtin:
     def __init__(self, name):
         self.name = name
@@ -376,7 +386,7 @@ class Evaluator:
             if s == "zero":
                 return False
             return self.decide(node, env)
-        if isinstance(v, (FuncV, BoundMethod, Builtin, ExtRef, ClassRef, SliceV)):
+        if isinstance(v, (FuncV, BoundMethod, Builtin, ExtRef, ClassRef, SliceV, PartialV)):
             return True
         try:
             return bool(v)
@@ -673,15 +683,7 @@ class Evaluator:
                     return _lift(self.P.modules[src].consts[attr])
                 return TOP
             if name in mod.const_nodes:
-                cn = mod.const_nodes[name]
-                if isinstance(cn, ast.Call) and isinstance(cn.func, ast.Name) and cn.func.id == "object" and not cn.args and not cn.keywords:
-                    # a module-level sentinel: one opaque object, equal only to itself
-                    cache = self.P.__dict__.setdefault("_sentinels", {})
-                    key = (modname, name)
-                    if key not in cache:
-                        cache[key] = Obj("sentinel", f"{modname}.{name}", (), {"__bool__": True})
-                    return cache[key]
-                return TOP
+                return self._module_constant(modname, name, mod.const_nodes[name])
         if name in BUILTINS:
             return Builtin(name)
         if name in EXC_PARENTS or name in ("Exception", "LookupError"):
@@ -699,6 +701,31 @@ class Evaluator:
                     # a local variable read on a path that never assigned it: Python raises UnboundLocalError
                     raise Raised("UnboundLocalError", node, f"local variable '{name}' referenced before assignment")
         raise Unmodelled(f"unbound name {name}", node)
+
+    def _module_constant(self, modname, name, cn):
+        """A module-level name whose value is not a literal: a sentinel `object()`, a compiled pattern, a table built
+        by a comprehension ... - interpreted once (no events, no forks); TOP if it cannot be interpreted."""
+        cache = self.P.__dict__.setdefault("_module_constants", {})
+        key = (modname, name)
+        if key in cache:
+            return cache[key]
+        cache[key] = TOP  # guards against recursive definitions
+        val = TOP
+        if isinstance(cn, ast.Call) and isinstance(cn.func, ast.Name) and cn.func.id == "object" and not cn.args and not cn.keywords:
+            val = Obj("sentinel", f"{modname}.{name}", (), {"__bool__": True})  # equal only to itself
+        elif isinstance(cn, (ast.Call, ast.DictComp, ast.ListComp, ast.SetComp, ast.Dict, ast.List, ast.Tuple, ast.BinOp, ast.Subscript, ast.JoinedStr, ast.Attribute)):
+            saved = (getattr(self, "events", []), getattr(self, "_prefix", []), getattr(self, "_pending", []), getattr(self, "decisions", []))
+            try:
+                self.events, self._prefix, self._pending, self.decisions = [], [], [], []
+                val = self.ev(cn, Env({}, None, modname), None)
+                if self.decisions or _has_top(val):
+                    val = TOP
+            except (Unmodelled, Raised, RecursionError):
+                val = TOP
+            finally:
+                self.events, self._prefix, self._pending, self.decisions = saved
+        cache[key] = val
+        return val
 
     def e_Tuple(self, e, env, fi):
         xs = self._elts(e.elts, env, fi)
@@ -1132,8 +1159,21 @@ class Evaluator:
             return {ast.Lt: l < r, ast.LtE: l <= r, ast.Gt: l > r, ast.GtE: l >= r}[type(op)]
         if isinstance(l, str) and isinstance(r, str):
             return {ast.Lt: l < r, ast.LtE: l <= r, ast.Gt: l > r, ast.GtE: l >= r}[type(op)]
+        _kv = type({}.keys())
+        if isinstance(l, (set, frozenset, _kv)) and isinstance(r, (set, frozenset, _kv)):
+            a, b = set(l), set(r)  # subset / superset tests
+            return {ast.Lt: a < b, ast.LtE: a <= b, ast.Gt: a > b, ast.GtE: a >= b}[type(op)]
+        if isinstance(l, (tuple, list)) and isinstance(r, (tuple, list)) and type(l) == type(r) and \
+                all(isinstance(x, (int, float, str)) and not isinstance(x, bool) for x in list(l) + list(r)):
+            try:
+                return {ast.Lt: l < r, ast.LtE: l <= r, ast.Gt: l > r, ast.GtE: l >= r}[type(op)]
+            except TypeError:
+                raise Raised("TypeError", node)
         if isinstance(l, (Sym, Text)) or isinstance(r, (Sym, Text)):
             self._label(("label-ordered", l, r, node))
+            return TOP
+        if isinstance(l, (set, frozenset, dict, list, tuple)) or isinstance(r, (set, frozenset, dict, list, tuple)):
+            raise Unmodelled(f"ordering comparison of {type(l).__name__} and {type(r).__name__}", node)
         return TOP
 
     def e_Yield(self, e, env, fi):
@@ -1273,6 +1313,52 @@ class Evaluator:
                         self.events.append(("set-order-consumed", f.path, node))
                 fn_ = getattr(_it, f.path.split(".")[1])
                 return _Iter([tuple(x) if not f.path.endswith("chain") else x for x in fn_(*seqs, **{k: v for k, v in kwargs.items() if isinstance(v, int)})])
+            if f.path == "re.compile" and "re.compile" not in self.models:
+                if not args or not isinstance(args[0], str):
+                    raise Unmodelled("re.compile of a non-constant pattern", node)
+                return Obj("RePattern", "pattern", (), {"pattern": args[0], "flags": args[1] if len(args) > 1 else kwargs.get("flags", 0), "__bool__": True})
+            if f.path == "functools.partial":
+                if not args:
+                    raise Raised("TypeError", node)
+                return PartialV("partial", args[0], args[1:], kwargs)
+            if f.path in ("operator.itemgetter", "operator.attrgetter") and len(args) == 1 and not kwargs:
+                return PartialV(f.path.split(".")[1], args[0])
+            if f.path in ("itertools.islice", "itertools.zip_longest", "itertools.accumulate", "itertools.starmap", "itertools.pairwise", "itertools.repeat"):
+                import itertools as _it
+
+                fn_ = f.path.split(".")[1]
+                if any(a is TOP or isinstance(a, Obj) for a in args[:1]) and fn_ != "repeat":
+                    return TOP
+                if fn_ == "islice":
+                    src = args[0]
+                    if isinstance(src, _LazyIter):
+                        n_ = args[1]
+                        if not isinstance(n_, int) or len(args) > 2:
+                            raise Unmodelled("islice of an unbounded iterator with non-constant bounds", node)
+                        return _Iter([src.pull(node) for _ in range(n_)])
+                    if not all(a is None or isinstance(a, int) for a in args[1:]):
+                        raise Unmodelled("islice with non-constant bounds", node)
+                    return _Iter(list(_it.islice(self.iterate(src, node), *args[1:])))
+                if fn_ == "zip_longest":
+                    seqs = [self.iterate(a, node) for a in args]
+                    return _Iter([tuple(t) for t in _it.zip_longest(*seqs, fillvalue=kwargs.get("fillvalue"))])
+                if fn_ == "pairwise":
+                    sq = self.iterate(args[0], node)
+                    return _Iter(list(zip(sq[:-1], sq[1:])))
+                if fn_ == "repeat":
+                    if len(args) < 2 or not isinstance(args[1], int):
+                        raise Unmodelled("itertools.repeat without a constant count", node)
+                    return _Iter([args[0]] * args[1])
+                if fn_ == "starmap":
+                    return _Iter([self.call(args[0], list(self.iterate(t, node)), {}, node) for t in self.iterate(args[1], node)])
+                if fn_ == "accumulate":
+                    items = self.iterate(args[0], node)
+                    fn2 = args[1] if len(args) > 1 else kwargs.get("func")
+                    out_, acc = [], None
+                    for i_, x in enumerate(items):
+                        acc = x if i_ == 0 else (self.binop(ast.Add(), acc, x, node) if fn2 is None else self.call(fn2, [acc, x], {}, node))
+                        out_.append(acc)
+                    return _Iter(out_)
             if f.path == "itertools.count":
                 import itertools as _it
 
@@ -1326,6 +1412,16 @@ class Evaluator:
                 self.call_function(FuncV(init, init.node, None, init.module), [o] + args, kwargs, node)
             return o
         if f is TOP:
+            return TOP
+        if isinstance(f, PartialV):
+            if f.kind == "partial":
+                kw2 = dict(f.kwargs)
+                kw2.update(kwargs)
+                return self.call(f.f, f.args + list(args), kw2, node, env, fi)
+            if f.kind == "itemgetter":
+                return self.getitem(args[0], f.f, node)
+            if f.kind == "attrgetter" and isinstance(f.f, str):
+                return self.getattr(args[0], f.f, node)
             return TOP
         if isinstance(f, Obj):
             cq = f.attrs.get("__class__")
@@ -1400,6 +1496,11 @@ class Evaluator:
             self._depth -= 1
 
     def call_method(self, recv, name, args, kwargs, node):
+        if isinstance(recv, Obj) and recv.kind == "RePattern" and name in ("match", "fullmatch", "search", "findall", "finditer", "sub", "subn", "split"):
+            # a compiled pattern behaves like the module-level function applied to its pattern text
+            if recv.attrs.get("flags") not in (0, None):
+                raise Unmodelled("compiled pattern with flags", node)
+            return self.call(ExtRef("re." + name), [recv.attrs["pattern"]] + list(args), kwargs, node)
         if isinstance(recv, Obj):
             m = self.method_models.get((recv.kind, name)) or self.method_models.get(name)
             if m is not None:
@@ -1477,11 +1578,14 @@ class Evaluator:
                 return set(recv)
         if isinstance(recv, str):
             if all(isinstance(a, (str, int, tuple)) or a is None for a in args) and not kwargs:
-                if name in ("split", "replace", "startswith", "endswith", "strip", "lstrip", "rstrip", "lower", "upper", "join", "find", "count", "format", "rsplit", "splitlines", "isdigit", "isidentifier", "title", "capitalize"):
+                if name in ("split", "replace", "startswith", "endswith", "strip", "lstrip", "rstrip", "lower", "upper", "join", "find", "count", "format", "rsplit", "splitlines", "isdigit", "isidentifier", "title", "capitalize",
+                            "partition", "rpartition", "removeprefix", "removesuffix", "index", "rfind", "rindex", "isalnum", "isalpha", "isspace", "islower", "isupper", "casefold", "swapcase", "zfill", "center", "ljust", "rjust", "expandtabs"):
                     try:
                         return getattr(recv, name)(*args)
-                    except (TypeError, ValueError):
+                    except TypeError:
                         raise Raised("TypeError", node)
+                    except ValueError:
+                        raise Raised("ValueError", node)
             if name == "join":
                 parts = list(self.iterate(args[0], node))
                 out = []
@@ -1494,7 +1598,13 @@ class Evaluator:
                 return Text(out) if not all(isinstance(x, str) for x in out) else "".join(out)
             if name == "format":
                 return TOP
-            return TOP
+            if name in ("encode", "format_map", "translate", "maketrans"):
+                return TOP
+            if not hasattr(str, name):
+                raise Raised("AttributeError", node, f"'str' object has no attribute '{name}'")
+            if any(a is TOP or isinstance(a, (Obj, Sym, Text)) for a in args):
+                return TOP
+            raise Unmodelled(f"str.{name} on constant arguments", node)
         if isinstance(recv, (Sym, Text)):
             self._label(("label-method", recv, name, args, node))
             return TOP
@@ -1887,6 +1997,17 @@ def _hashable(k):
     if isinstance(k, tuple):
         return all(_hashable(x) for x in k)
     return True
+
+
+def _has_top(v):
+    """TOP anywhere inside a container (opaque objects are fine)."""
+    if v is TOP:
+        return True
+    if isinstance(v, (list, tuple, set, frozenset)):
+        return any(_has_top(x) for x in v)
+    if isinstance(v, dict):
+        return any(_has_top(x) for x in v.values()) or any(_has_top(k) for k in v)
+    return False
 
 
 def _contains_top(v):
